@@ -136,7 +136,7 @@ EXPORT errno_t _wcstombs_s_chk(size_t *restrict retvalp, char *restrict dest,
     mbstate_t st;
 #endif
 
-    CHK_SRC_NULL("wcstombs_s", retvalp)
+    CHK_ARG_NULL_TERM("wcstombs_s", retvalp, RSIZE_MAX_STR, char)
     *retvalp = 0;
     if (dest) {
         CHK_DMAX_ZERO("wcstombs_s")
